@@ -31,7 +31,8 @@ type Op struct {
 	Path   string `json:"path"`
 	To     string `json:"to,omitempty"`
 	Binary bool   `json:"binary,omitempty"`
-	Exec   bool   `json:"exec,omitempty"` // add only: the file is executable (mode 100755); edits and renames keep the mode
+	Exec   bool   `json:"exec,omitempty"`  // add only: the file is executable (mode 100755); edits and renames keep the mode
+	Chmod  bool   `json:"chmod,omitempty"` // modify only: the executable bit is flipped (Drop and Ins may both be 0 then)
 	Lines  int    `json:"lines,omitempty"`
 	DropAt int    `json:"drop_at,omitempty"`
 	Drop   int    `json:"drop,omitempty"`
@@ -109,6 +110,9 @@ type Entry struct {
 	Binary  bool
 	Score   int  // rename similarity percent as printed
 	Exec    bool // the created / deleted file is executable
+	// ModeChange is "100644 => 100755" (or the reverse) for a modified file whose executable bit
+	// was flipped; git adds a ` mode change` line to the summary block
+	ModeChange string
 }
 
 // Printed is the path column of the numstat line.
@@ -304,7 +308,11 @@ func (s *state) apply(c Commit) error {
 				if !ok {
 					return fmt.Errorf("commit %d: modify of missing %q", idx, op.Path)
 				}
-				after[op.Path] = s.edit(f, op)
+				nf := s.edit(f, op)
+				if op.Chmod {
+					nf.Exec = !nf.Exec
+				}
+				after[op.Path] = nf
 			case "delete":
 				if _, ok := after[op.Path]; !ok {
 					return fmt.Errorf("commit %d: delete of missing %q", idx, op.Path)
@@ -493,10 +501,13 @@ func diffTrees(before, after Tree) ([]Entry, error) {
 			continue
 		}
 		cur := after[p]
-		if old == cur || sameLines(old.Lines, cur.Lines) {
+		if old == cur || (sameLines(old.Lines, cur.Lines) && old.Exec == cur.Exec) {
 			continue
 		}
 		e := Entry{Kind: 'M', Old: p, New: p}
+		if old.Exec != cur.Exec {
+			e.ModeChange = old.ModeString() + " => " + cur.ModeString()
+		}
 		fillCounts(&e, old, cur)
 		out = append(out, e)
 	}
@@ -693,6 +704,10 @@ func Emulate(sim *Sim, hashes []string) string {
 				fmt.Fprintf(&sb, " delete mode %s %s\n", (&File{Exec: e.Exec}).ModeString(), e.Old)
 			case 'R':
 				fmt.Fprintf(&sb, " rename %s (%d%%)\n", e.Printed(), e.Score)
+			case 'M':
+				if e.ModeChange != "" {
+					fmt.Fprintf(&sb, " mode change %s %s\n", e.ModeChange, e.New)
+				}
 			}
 		}
 	}
